@@ -375,6 +375,8 @@ pub fn path_defs() -> Vec<SubjectDef> {
         ),
         // end anchors next to patterns that fail on a multi-byte char right after a shared prefix
         core(true, vec![], vec![vec![rx(".\\z\\d")], vec![pr(tok(" c"), 3)], vec![rx("(?:λ日K){2,}(?m:$)")], vec![rx("0\\.(?m:$)"), rx("c\\. |1Σ\\z")]], false),
+        // fixed-size binary records: runs of states left by one edge that covers all 256 byte values (byte mode)
+        core(false, vec![], vec![vec![brx(b"\\x01(?s-u:.){4}")], vec![brx(b"\\x02(?s-u:.){2}z")], vec![tok("a")], vec![brx(b"\\x03(?s-u:.)(?s-u:.)(?s-u:.)\\x03")]], false),
         // non-ASCII literals and classes whose near misses share lead / continuation bytes
         core(true, vec![rx(" ")], vec![vec![rx("\\$[α-ω]+")], vec![tok("é")], vec![tok("€")], vec![tok("😀")], vec![rx("x+é")], vec![rx("[一-龥]+")]], true),
     ]
@@ -395,6 +397,14 @@ pub fn table_defs() -> Vec<SubjectDef> {
             variants.push(vec![p]);
         }
         variants.push(vec![PatSpec::token(LitSpec::str("z"))]);
+        // case-insensitive literal tokens with callbacks (unit return types: such a definition compiles whatever happens
+        // to the callback, so a lost callback shows in the stream, not as a build failure)
+        for (k, ret) in [0u8, 1, 3, 5, 6].into_iter().enumerate() {
+            let mut p = PatSpec::token(LitSpec::str(format!("kw{}", (b'q' + k as u8) as char)));
+            p.ignore_case = true;
+            p.callback = Some(CbSpec { ret, salt: salt0 + 40 + ret as u32, bump: 0, form: (k as u8) % 4 });
+            variants.push(vec![p]);
+        }
         let mut has_value = vec![false; variants.len()];
         let mut sk = PatSpec::regex(LitSpec::str(" "));
         sk.callback = None;
